@@ -719,6 +719,8 @@ class CallGraph:
 
 
 def readers_reachable_from(inv: "Inventory", roots: List[str], entry: str) -> Tuple[List[str], bool]:
+    if entry == GENERATORS:
+        return drawers_reachable_from(inv, roots)
     """non-writer readers of `entry` statically reachable from the given functions (used by the rig for functions that were ENTERED before
     the write on a monitored run but are not in the static closure: third-party callbacks, validators handed to pydantic, …)"""
     cg = inv.callgraph
@@ -736,6 +738,24 @@ def readers_reachable_from(inv: "Inventory", roots: List[str], entry: str) -> Tu
     return sorted(f for f in reached if f in e["readers"] and f not in e["writers"]), trunc
 
 
+def drawers_reachable_from(inv: "Inventory", roots: List[str]) -> Tuple[List[str], bool]:
+    """functions that draw from a process-global generator, statically reachable from the given functions"""
+    cg = inv.callgraph
+    drawers = {f for (_, f, c) in inv.rng if c.split(".")[-1] not in RNG_SEEDERS}
+    seen: Dict[Tuple[str, Optional[str]], int] = {}
+    trunc = False
+    for r in roots:
+        if r not in cg.byqual:
+            continue
+        node, c = cg.byqual[r]
+        s2, t2 = cg.closure(cg.callees(node), c, r)
+        seen.update(s2)
+        trunc = trunc or t2
+    reached = {k[0] for k in seen} | set(roots)
+    return sorted(f for f in reached if f in drawers), trunc
+
+
+GENERATORS = "<process-global generators>"
 ANCHOR = "game.game:PrimaiteGame.from_config"
 ENV_CLASS = ("session.environment", "PrimaiteGymEnv")
 
@@ -790,6 +810,39 @@ def reach_before_write(inv: "Inventory", mods: List[_Mod], classes) -> List[dict
             reached = sorted({k[0] for k in seen})
             rows.append({"entry": name, "op": op, "calls": names, "reached": reached, "truncated": trunc,
                          "readers": sorted(f for f in reached if f in e["readers"])})
+    # the process-global GENERATORS are re-written (seeded) before they are read as well: nothing that `reset` / `__init__` call BEFORE the
+    # statement that calls `set_random_seed` may draw from them
+    drawers = {f for (_, f, c) in inv.rng if c.split(".")[-1] not in RNG_SEEDERS}
+
+    def seeds(st):
+        return any(isinstance(x, ast.Call) and ast.unparse(x.func).split(".")[-1] == "set_random_seed" for x in ast.walk(st))
+    for op in ("reset", "__init__"):
+        q = f"{env_q}.{op}"
+        if q not in cg.byqual:
+            raise ValueError(f"call graph: {q} not found")
+        fn = cg.byqual[q][0]
+        if not any(seeds(st) for st in fn.body):
+            raise ValueError(f"{q}: no top-level statement calls set_random_seed")
+        items, names = [], []
+        for st in fn.body:
+            if seeds(st):
+                # the sub-expressions of the seeding statement that are evaluated before the call itself (its test, its arguments)
+                for x in ast.walk(st):
+                    if isinstance(x, ast.Call) and ast.unparse(x.func).split(".")[-1] == "set_random_seed":
+                        for a in list(x.args) + [k.value for k in x.keywords]:
+                            items += cg.callees(a)
+                if isinstance(st, ast.If):
+                    items += cg.callees(st.test)
+                break
+            items += cg.callees(st)
+        for (k, nm, rv) in items:
+            t = (rv + "." if rv else "") + nm
+            if t not in names:
+                names.append(t)
+        seen, trunc = cg.closure(items, ENV_CLASS[1], q)
+        reached = sorted({k[0] for k in seen})
+        rows.append({"entry": GENERATORS, "op": op, "calls": names, "reached": reached, "truncated": trunc,
+                     "readers": sorted(f for f in reached if f in drawers)})
     return rows
 
 
